@@ -7,7 +7,8 @@ THEOREMS = {
             "popularity_normalised", "fit_ends_with_normalize", "partialFit_ends_with_normalize",
             "stat_greedy", "stat_ucb", "stat_softmax", "stat_thompson", "stat_popularity", "stat_random",
             "fitRec_append", "parallelFitIn_closed",
-            "step_lp", "runHist_lp", "facade_lp_is_trace", "stepOp_norm_congr", "run_norm_congr", "runHist_lp_queries"],
+            "step_lp", "runHist_lp", "facade_lp_is_trace", "stepOp_norm_congr", "run_norm_congr", "runHist_lp_queries",
+            "facade_expectation_greedy", "facade_thompson_counts"],
     "C02": ["lin_statistics", "stat_linear", "gram_accumulates", "k1_counterexample", "k1_lambda_one", "linucb_columns",
             "reshape_rowwise", "squeeze_counterexample", "fitRec_append",
             "toV_mulVec", "toM_matMul", "toM_ident", "inverse_certificate", "beta_unique_solution", "toM_addGram",
